@@ -11,7 +11,7 @@ MANIFEST = {
           'preemptions (thorough 3) - hence the stop at every point of the writer loop including inside its idle '
           'sleep - for all strategies, MIN_TIMESTAMP_LAG 0/5 and the rate-limit settings; when writeForever '
           'returns nothing accepted before the stop may remain in the cache, and the C03 accounting must hold.',
-  'note': 'Fault-free backend. Twisted\'s shutdown order (before: triggers; during: crash() sets running False and '
+  'note': 'Fault-free backend; under an update limit the clock may jump by two token-times inside a blocking token acquisition (data choice). Twisted\'s shutdown order (before: triggers; during: crash() sets running False and '
           'the thread pool is joined) is taken from twisted/internet/base.py and reproduced by the harness.',
 }
 
@@ -35,6 +35,9 @@ def jobs(ctx):
         if li and not ctx.thorough and strat not in ('sorted', 'timesorted'):
           continue
         out.append((p, (b, fb)))
+        if lim.get('max_updates') and strat in ('sorted', 'random'):
+          # the clock moving inside a blocking token acquisition (a descheduled writer) is an environment choice
+          out.append((dict(p, clock_jumps=True), (1, fb + 1)))
   return out
 
 
